@@ -62,13 +62,15 @@ def shape_get_table(own, parent_kind):
     return sh
 
 
-def shape_table_node(cls, outer_has):
+def shape_table_node(cls, outer_has, inner_has=False):
     def sh(B):
         res = S.resolver(B)
         root = B.I.hget(B.st, res).fields["current_scope"]
         ot = B.inst("script.Table", lookup=B.dict({}), inverted_lookup=B.dict({}), max_bytes_length=0, max_text_length=0) if outer_has else None
         B.I.hmut(B.st, root).fields["table"] = ot
         inner = S.scope(B, res, root, cls="a816.symbols." + cls, **({"name": "s"} if cls == "NamedScope" else {}))
+        if inner_has:
+            B.I.hmut(B.st, inner).fields["table"] = B.inst("script.Table", lookup=B.dict({"q": b"\x99"}), inverted_lookup=B.dict({}), max_bytes_length=1, max_text_length=1)
         B.I.hmut(B.st, B.I.hget(B.st, res).fields["scopes"]).items.append(inner)
         B.I.hmut(B.st, res).fields["current_scope"] = inner
         return {"resolver": res, "inner": inner, "outer": root, "outer_table": ot}
@@ -104,6 +106,8 @@ def cases(E):
     from vf.props import C07 as c07
     cs.append(Case(c07.H + "quoted_string_directive_contract", "a QUOTED_STRING token of any text (quotes and backslashes inside included)", c07.shape_quoted,
                    target=["a816.parse.parser_states.parse_directive_with_quoted_string"]))
+    cs.append(Case(H + "table_node_contract", "a second .table in a scope that already loaded one", shape_table_node("Scope", True, True),
+                   target=["a816.parse.nodes.TableNode.__init__"], overrides={"script.Table.__init__": "vf.specs.stubs.table_init_model"}))
     for cls in ("Scope", "InternalScope", "NamedScope"):
         for outer_has in (True, False):
             cs.append(Case(H + "table_node_contract", f".table inside a {cls}, enclosing scope {'has' if outer_has else 'has no'} table", shape_table_node(cls, outer_has),
@@ -111,7 +115,7 @@ def cases(E):
     return cs
 
 
-OPTIONAL_CHECKS = {"get_table_contract": ["own_table_first", "no_table", "enclosing_table"]}
+OPTIONAL_CHECKS = {"table_node_contract": ["a_second_table_replaces_the_first"], "get_table_contract": ["own_table_first", "no_table", "enclosing_table"]}
 
 
 QUICK_MUTANTS = 2
